@@ -3207,6 +3207,597 @@ fn gr_mirror_part(rep: &mut Report, rng: &mut Rng, n: u64) {
     }
 }
 
+// ------------------------------------------------------------------ concurrent part
+//
+// Real configuration changes (gRPC handlers) race with real connections being accepted.
+// The two are made to overlap either by holding the global lock while both queue up behind
+// it (what any other handler / session task does all the time) or by free-running them on a
+// multi-thread runtime with jitter.  Judged only at quiescence (both calls returned), with
+// clauses that hold for every linearisation:
+//  (a) a neighbour that is admin-down at the end owns no registered connection that was never
+//      told to shut down;
+//  (b) a session of a neighbour that was deleted / replaced was told to shut down;
+//  (c) an accepted session carries the parameters of a configuration that existed during the overlap.
+
+#[derive(Clone, Copy, Debug, PartialEq)]
+enum ConcKind {
+    Disable,
+    Enable,
+    Delete,
+    Add,
+    Replace,
+    DelPrefix,
+    AddPrefix,
+    MovePrefix,
+}
+
+struct ConcAccepted {
+    role: Role,
+    start: u64,
+    end: u64,
+    arb: Option<Arc<std::sync::Mutex<ConnArbiter>>>,
+    done_rx: Option<tokio::sync::oneshot::Receiver<Option<(String, String)>>>,
+    obs: Option<Observed>,
+    client: Option<TcpStream>,
+}
+
+fn told_to_close(arb: &Arc<std::sync::Mutex<ConnArbiter>>, role: Role) -> bool {
+    let a = arb.lock().unwrap();
+    match role {
+        Role::Active => a.active_close_tx.is_none(),
+        Role::Passive => a.passive_close_tx.is_none(),
+    }
+}
+
+async fn conc_pair(l4: &TcpListener, addr: IpAddr, role: Role) -> Result<(TcpStream, TcpStream), String> {
+    match role {
+        Role::Passive => {
+            let la = l4.local_addr().map_err(|e| e.to_string())?;
+            let mut last = String::new();
+            for _ in 0..200 {
+                let sock = TcpSocket::new_v4().map_err(|e| e.to_string())?;
+                let shortage = |e: &std::io::Error| matches!(e.kind(), std::io::ErrorKind::AddrInUse | std::io::ErrorKind::AddrNotAvailable);
+                if let Err(e) = sock.bind(SocketAddr::new(addr, 0)) {
+                    if shortage(&e) {
+                        last = e.to_string();
+                        tokio::time::sleep(Duration::from_millis(500)).await;
+                        continue;
+                    }
+                    return Err(format!("bind {}: {}", addr, e));
+                }
+                let (c, s) = tokio::join!(sock.connect(la), async { tokio::time::timeout(Duration::from_secs(5), l4.accept()).await });
+                let c = match c {
+                    Ok(c) => c,
+                    Err(e) if shortage(&e) => {
+                        last = e.to_string();
+                        tokio::time::sleep(Duration::from_millis(500)).await;
+                        continue;
+                    }
+                    Err(e) => return Err(format!("connect from {}: {}", addr, e)),
+                };
+                let (s, _) = match s {
+                    Ok(Ok(x)) => x,
+                    _ => return Err("accept on the harness listener failed".into()),
+                };
+                crate::verif_hooks::no_time_wait(&c);
+                crate::verif_hooks::no_time_wait(&s);
+                return Ok((c, s));
+            }
+            Err(format!("no ephemeral port: {}", last))
+        }
+        Role::Active => {
+            let l = crate::verif_hooks::bind_retry(SocketAddr::new(addr, 0)).await.map_err(|e| e.to_string())?;
+            let la = l.local_addr().map_err(|e| e.to_string())?;
+            let (d, c) = tokio::join!(crate::verif_hooks::connect_retry(la), async { tokio::time::timeout(Duration::from_secs(110), l.accept()).await });
+            let d = d.map_err(|e| e.to_string())?;
+            let (c, _) = match c {
+                Ok(Ok(x)) => x,
+                _ => return Err("accept on the harness listener failed".into()),
+            };
+            crate::verif_hooks::no_time_wait(&c);
+            crate::verif_hooks::no_time_wait(&d);
+            Ok((c, d))
+        }
+    }
+}
+
+/// read one message from the client end (watchdog => None/"timeout")
+async fn conc_read_open(client: &mut TcpStream) -> Result<bgp::Open, &'static str> {
+    let mut buf = BytesMut::with_capacity(4096);
+    loop {
+        match bgp::PeerCodec::new().try_parse(&mut buf) {
+            Ok(Some(bgp::ParsedMessage::Open(o))) => return Ok(o),
+            Ok(Some(_)) => return Err("not-open"),
+            Ok(None) => {}
+            Err(_) => return Err("undecodable"),
+        }
+        match tokio::time::timeout(WATCHDOG, client.readable()).await {
+            Err(_) => return Err("timeout"),
+            Ok(Err(_)) => return Err("closed"),
+            Ok(Ok(())) => {}
+        }
+        match client.try_read_buf(&mut buf) {
+            Ok(0) => return Err("closed"),
+            Ok(_) => {}
+            Err(ref e) if e.kind() == std::io::ErrorKind::WouldBlock => {}
+            Err(_) => return Err("closed"),
+        }
+    }
+}
+
+async fn conc_round(rng: &mut Rng, rep: &mut Report, index: u64, trace: bool) {
+    let kinds = [
+        ConcKind::Disable,
+        ConcKind::Disable,
+        ConcKind::Disable,
+        ConcKind::Enable,
+        ConcKind::Delete,
+        ConcKind::Delete,
+        ConcKind::Add,
+        ConcKind::Replace,
+        ConcKind::Replace,
+        ConcKind::DelPrefix,
+        ConcKind::AddPrefix,
+        ConcKind::MovePrefix,
+    ];
+    let kind = *rng.pick(&kinds);
+    let mode = rng.below(6);
+    let addr = IpAddr::V4(Ipv4Addr::new(127, rng.range(1, 254) as u8, rng.below(256) as u8, rng.range(1, 254) as u8));
+    // ---- configuration
+    let mut n1 = NeighGen { addr, c: gen_common(rng, false, false, false, false), group: None, admin_down: kind == ConcKind::Enable, export: None };
+    if n1.c.peer_as == 0 {
+        n1.c.peer_as = 65002;
+    }
+    let mut n2 = n1.clone();
+    n2.admin_down = false;
+    n2.c.hold = Some(*rng.pick(&[33u32, 77, 1234]));
+    n2.c.peer_as = *rng.pick(&[65002u32, 65003, 65100]);
+    let mut g0 = GroupGen { name: "g0".into(), c: gen_common(rng, true, false, false, false), prefixes: vec![] };
+    let mut g1 = GroupGen { name: "g1".into(), c: gen_common(rng, true, false, false, false), prefixes: vec![] };
+    g1.c.hold = Some(*rng.pick(&[44u32, 88]));
+    let (_, bits) = addr_bits(&addr);
+    let plen = rng.range(9, 32) as u8;
+    let pfx = prefix_of(false, bits, plen);
+    let dynamic = matches!(kind, ConcKind::DelPrefix | ConcKind::AddPrefix | ConcKind::MovePrefix);
+    // a Delete round may leave the address covered by a dynamic prefix (clause (b) is then not judged)
+    let covered = kind == ConcKind::Delete && rng.chance(1, 4);
+    if matches!(kind, ConcKind::DelPrefix | ConcKind::MovePrefix) || covered {
+        g0.prefixes.push(pfx.clone());
+    }
+    let (active_tx, _active_rx) = mpsc::unbounded_channel::<TcpStream>();
+    let (ktx, _krx) = mpsc::unbounded_channel();
+    let (btx, _brx) = mpsc::unbounded_channel();
+    let tables: TableHandle = Arc::new(TableManager::new(1));
+    let global: GlobalHandle = Arc::new(tokio::sync::RwLock::new(Global::new(ktx, btx)));
+    let svc = Arc::new(GrpcService::new(Arc::new(tokio::sync::Notify::new()), active_tx.clone(), global.clone(), tables.clone()));
+    let mut steps: Vec<String> = Vec::new();
+    let load: Result<(), String> = async {
+        svc.start_bgp(tonic::Request::new(api::StartBgpRequest {
+            global: Some(api::Global { asn: GLOBAL_AS, router_id: router_id().to_string(), listen_port: -1, ..Default::default() }),
+        }))
+        .await
+        .map_err(|e| e.to_string())?;
+        for g in [&g0, &g1] {
+            svc.add_peer_group(tonic::Request::new(api::AddPeerGroupRequest { peer_group: Some(group_api(g)) })).await.map_err(|e| e.to_string())?;
+            for p in &g.prefixes {
+                svc.add_dynamic_neighbor(tonic::Request::new(api::AddDynamicNeighborRequest {
+                    dynamic_neighbor: Some(api::DynamicNeighbor { prefix: p.text.clone(), peer_group: g.name.clone() }),
+                }))
+                .await
+                .map_err(|e| e.to_string())?;
+            }
+        }
+        if !dynamic && kind != ConcKind::Add {
+            svc.add_peer(tonic::Request::new(api::AddPeerRequest { peer: Some(neigh_api(&n1)) })).await.map_err(|e| e.to_string())?;
+        }
+        Ok(())
+    }
+    .await;
+    if let Err(e) = load {
+        rep.inconclusive(&format!("harness: concurrent round configuration not loadable: {}", e));
+        return;
+    }
+    let l4 = match crate::verif_hooks::bind_retry(SocketAddr::new(IpAddr::V4(Ipv4Addr::LOCALHOST), 0)).await {
+        Ok(l) => l,
+        Err(e) => {
+            rep.inconclusive(&format!("harness: bind: {}", e));
+            return;
+        }
+    };
+    // ---- the connections (built before anything races)
+    let roles: Vec<Role> = match rng.below(4) {
+        0 => vec![Role::Active],
+        1 => vec![Role::Passive, Role::Active],
+        _ => vec![Role::Passive],
+    };
+    let mut pairs = Vec::new();
+    for r in &roles {
+        match conc_pair(&l4, addr, *r).await {
+            Ok(p) => pairs.push((*r, p)),
+            Err(e) => {
+                rep.inconclusive(&format!("harness: cannot build a loopback connection: {}", e));
+                return;
+            }
+        }
+    }
+    rep.count("conc:rounds");
+    rep.count(&format!("conc:kind:{:?}", kind));
+    rep.count(&format!("conc:mode:{}", mode));
+    let seq = Arc::new(std::sync::atomic::AtomicU64::new(1));
+    // ---- somebody else owns the global lock for a moment (modes 0..3)
+    enum Busy {
+        W(tokio::sync::OwnedRwLockWriteGuard<Global>),
+        R(tokio::sync::OwnedRwLockReadGuard<Global>),
+        None,
+    }
+    let busy = match mode {
+        0 | 1 => Busy::W(global.clone().write_owned().await),
+        2 | 3 => Busy::R(global.clone().read_owned().await),
+        _ => Busy::None,
+    };
+    let spawn_accepts = |pairs: Vec<(Role, (TcpStream, TcpStream))>| {
+        let mut hs = Vec::new();
+        for (role, (client, server)) in pairs {
+            let (g, t, atx, seq) = (global.clone(), tables.clone(), active_tx.clone(), seq.clone());
+            hs.push(tokio::spawn(async move {
+                let start = seq.fetch_add(1, Ordering::SeqCst);
+                let res = accept_connection(&g, &t, server, role).await;
+                let mut out = ConcAccepted { role, start, end: 0, arb: None, done_rx: None, obs: None, client: Some(client) };
+                if let Some(session) = res {
+                    out.obs = Some(Observed {
+                        role: Some(session.export_ctx.role),
+                        local_as_session: session.export_ctx.local_asn,
+                        confed_id: session.export_ctx.confederation_id,
+                        cluster: session.cluster_id,
+                        limits: session.prefix_counters.iter().map(|(f, (max, _))| (fid(*f), *max)).collect(),
+                        export: session
+                            .state
+                            .export_policy
+                            .load_full()
+                            .map(|a| (a.disposition == table::Disposition::Reject, a.policies.iter().map(|p| p.name.to_string()).collect())),
+                        ..Default::default()
+                    });
+                    // exactly what Global::serve does with an accepted connection
+                    let arb = session.conn_arbiter.clone();
+                    let (done_tx, done_rx) = tokio::sync::oneshot::channel::<Option<(String, String)>>();
+                    let jh = tokio::spawn(async move {
+                        let r = std::panic::AssertUnwindSafe(session.run(g, atx)).catch_unwind().await;
+                        let _ = done_tx.send(if r.is_err() { Some(take_panic()) } else { None });
+                    });
+                    match role {
+                        Role::Active => arb.lock().unwrap().active_join_handle = Some(jh),
+                        Role::Passive => arb.lock().unwrap().passive_join_handle = Some(jh),
+                    }
+                    out.arb = Some(arb);
+                    out.done_rx = Some(done_rx);
+                }
+                out.end = seq.fetch_add(1, Ordering::SeqCst);
+                out
+            }));
+        }
+        hs
+    };
+    let spawn_config = || {
+        let (svc, seq) = (svc.clone(), seq.clone());
+        let (n1c, n2c, pfxc) = (n1.clone(), n2.clone(), pfx.clone());
+        tokio::spawn(async move {
+            let start = seq.fetch_add(1, Ordering::SeqCst);
+            let a = n1c.addr.to_string();
+            let mut ok = Vec::new();
+            match kind {
+                ConcKind::Disable => ok.push(svc.disable_peer(tonic::Request::new(api::DisablePeerRequest { address: a, communication: String::new() })).await.is_ok()),
+                ConcKind::Enable => ok.push(svc.enable_peer(tonic::Request::new(api::EnablePeerRequest { address: a })).await.is_ok()),
+                ConcKind::Delete => ok.push(svc.delete_peer(tonic::Request::new(api::DeletePeerRequest { address: a, interface: String::new() })).await.is_ok()),
+                ConcKind::Add => ok.push(svc.add_peer(tonic::Request::new(api::AddPeerRequest { peer: Some(neigh_api(&n1c)) })).await.is_ok()),
+                ConcKind::Replace => {
+                    ok.push(svc.delete_peer(tonic::Request::new(api::DeletePeerRequest { address: a, interface: String::new() })).await.is_ok());
+                    ok.push(svc.add_peer(tonic::Request::new(api::AddPeerRequest { peer: Some(neigh_api(&n2c)) })).await.is_ok());
+                }
+                ConcKind::DelPrefix => ok.push(
+                    svc.delete_dynamic_neighbor(tonic::Request::new(api::DeleteDynamicNeighborRequest { prefix: pfxc.text.clone(), peer_group: "g0".into() })).await.is_ok(),
+                ),
+                ConcKind::AddPrefix => ok.push(
+                    svc.add_dynamic_neighbor(tonic::Request::new(api::AddDynamicNeighborRequest {
+                        dynamic_neighbor: Some(api::DynamicNeighbor { prefix: pfxc.text.clone(), peer_group: "g0".into() }),
+                    }))
+                    .await
+                    .is_ok(),
+                ),
+                ConcKind::MovePrefix => {
+                    ok.push(
+                        svc.delete_dynamic_neighbor(tonic::Request::new(api::DeleteDynamicNeighborRequest { prefix: pfxc.text.clone(), peer_group: "g0".into() })).await.is_ok(),
+                    );
+                    ok.push(
+                        svc.add_dynamic_neighbor(tonic::Request::new(api::AddDynamicNeighborRequest {
+                            dynamic_neighbor: Some(api::DynamicNeighbor { prefix: pfxc.text.clone(), peer_group: "g1".into() }),
+                        }))
+                        .await
+                        .is_ok(),
+                    );
+                }
+            }
+            let end = seq.fetch_add(1, Ordering::SeqCst);
+            (start, end, ok)
+        })
+    };
+    let jitter = Duration::from_micros(if rng.bool() { 0 } else { rng.range(0, 200) });
+    let settle = Duration::from_micros(300 + rng.range(0, 300));
+    let accept_first = matches!(mode, 0 | 2 | 4);
+    let (accept_hs, config_h) = if accept_first {
+        let a = spawn_accepts(pairs);
+        tokio::time::sleep(if mode == 4 { jitter } else { settle }).await;
+        let c = spawn_config();
+        (a, c)
+    } else {
+        let c = spawn_config();
+        tokio::time::sleep(if mode == 5 { jitter } else { settle }).await;
+        let a = spawn_accepts(pairs);
+        (a, c)
+    };
+    steps.push(format!(
+        "{:?} of {} races with {} connection(s) {:?}; {} queued first{}",
+        kind,
+        addr,
+        roles.len(),
+        roles.iter().map(|r| role_name(*r)).collect::<Vec<_>>(),
+        if accept_first { "accept" } else { "configuration call" },
+        match mode {
+            0 | 1 => ", both behind a holder of the global write lock",
+            2 | 3 => ", both behind a holder of the global read lock",
+            _ => ", free-running",
+        }
+    ));
+    if mode < 4 {
+        tokio::time::sleep(settle).await;
+    }
+    drop(busy);
+    // ---- both sides finish
+    let mut accepted: Vec<ConcAccepted> = Vec::new();
+    for h in accept_hs {
+        match tokio::time::timeout(WATCHDOG, h).await {
+            Ok(Ok(a)) => accepted.push(a),
+            Ok(Err(e)) => {
+                if e.is_panic() {
+                    let (loc, msg) = take_panic();
+                    rep.violation(&format!("C16/panic/{}:{}", loc, panic_class(&msg)), &format!("accept_connection panicked while a configuration call ran: {}", msg), Json::strs(steps.clone()));
+                }
+                return;
+            }
+            Err(_) => {
+                rep.inconclusive("watchdog: accept_connection did not return while racing with a configuration call");
+                return;
+            }
+        }
+    }
+    let (cstart, cend, cok) = match tokio::time::timeout(WATCHDOG, config_h).await {
+        Ok(Ok(x)) => x,
+        Ok(Err(e)) => {
+            if e.is_panic() {
+                let (loc, msg) = take_panic();
+                rep.violation(&format!("C16/panic/{}:{}", loc, panic_class(&msg)), &format!("configuration handler panicked while a connection was accepted: {}", msg), Json::strs(steps.clone()));
+            }
+            return;
+        }
+        Err(_) => {
+            rep.inconclusive("watchdog: configuration call did not return while racing with accept_connection");
+            return;
+        }
+    };
+    for a in &accepted {
+        steps.push(format!(
+            "accept_connection({}) {} (seq {}..{}), configuration call seq {}..{} ok={:?}",
+            role_name(a.role),
+            if a.arb.is_some() { "-> session" } else { "-> refused" },
+            a.start,
+            a.end,
+            cstart,
+            cend,
+            cok
+        ));
+        if a.start < cend && cstart < a.end {
+            rep.count("conc:overlapping-pairs");
+            if mode < 4 {
+                rep.count("conc:overlapping-pairs:behind-lock-holder");
+            }
+        } else {
+            rep.count("conc:not-overlapping");
+        }
+        rep.count(if a.arb.is_some() { "conc:accepted" } else { "conc:refused" });
+    }
+    if trace {
+        for s in &steps {
+            eprintln!("  [{}] {}", index, s);
+        }
+    }
+    // ---- quiescence: both calls have returned.  What is the configuration now?
+    let (entry_arb, entry_admin_down, entry_dynamic, expected_as, send_max): (Option<Arc<std::sync::Mutex<ConnArbiter>>>, bool, bool, u32, BTreeMap<u32, usize>) = {
+        let g = global.read().await;
+        match g.peers.get(&addr) {
+            Some(p) => {
+                let ctx = p.context.lock().unwrap();
+                let arb = ctx.conn_arbiter.clone();
+                let sm = arb.lock().unwrap().fsm().configured_send_max().iter().map(|(f, v)| (fid(*f), *v)).collect();
+                (Some(arb), p.admin_down, p.config.delete_on_disconnected, p.config.expected_remote_asn, sm)
+            }
+            None => (None, false, false, 0, BTreeMap::new()),
+        }
+    };
+    let wit = |steps: &Vec<String>, extra: &str| {
+        Json::obj(vec![
+            ("round", Json::Int(index as i128)),
+            ("steps", Json::strs(steps.clone())),
+            ("neighbour", Json::s(format!("{:?}", n1))),
+            ("replacement", Json::s(if kind == ConcKind::Replace { format!("{:?}", n2) } else { String::new() })),
+            ("groups", Json::s(format!("{:?} {:?}", g0, g1))),
+            ("detail", Json::s(extra)),
+            ("replay", Json::s(format!("VERIF_SEED=<shard seed> VERIF_PART=concurrent VERIF_ONLY={} VERIF_TRACE=1 <e2 test binary> event::verif::c16::run --exact --nocapture (timing dependent)", index))),
+        ])
+    };
+    for a in accepted.iter_mut() {
+        let Some(arb) = a.arb.clone() else {
+            if let Some(c) = a.client.as_mut() {
+                // refused: zero bytes
+                let (bytes, how) = drain_to_eof(c).await;
+                rep.eval();
+                if how == "timeout" {
+                    rep.inconclusive("watchdog: a refused connection was not closed (concurrent part)");
+                } else if !bytes.is_empty() {
+                    rep.violation("C16/refused-bytes/concurrent", "a connection refused while the configuration changed received bytes", wit(&steps, &hex(&bytes)));
+                }
+            }
+            continue;
+        };
+        rep.eval();
+        rep.nontrivial(fnv64(format!("{:?}|{}|{}|{:?}|{}", kind, mode, role_name(a.role), n1, a.start < cend && cstart < a.end).as_bytes()));
+        let owner_current = entry_arb.as_ref().is_some_and(|e| Arc::ptr_eq(e, &arb));
+        let told = told_to_close(&arb, a.role);
+        let mut must_end = false;
+        if !owner_current {
+            // the neighbour this session belongs to was deleted (or replaced by a new one)
+            must_end = true;
+            rep.count("conc:judged:session-of-removed-neighbour");
+            if !told {
+                rep.violation(
+                    &format!("C16/concurrent/session-of-removed-neighbour-not-closed/{:?}", kind),
+                    "after DeletePeer returned, a session of the deleted neighbour is still registered and was never told to shut down",
+                    wit(&steps, "close channel of the session's direction is still installed in its arbiter"),
+                );
+            }
+        } else if entry_admin_down {
+            must_end = true;
+            rep.count("conc:judged:session-of-admin-down-neighbour");
+            if !told {
+                rep.violation(
+                    &format!("C16/concurrent/admin-down-neighbour-has-registered-connection/{:?}", kind),
+                    "after DisablePeer returned, the administratively down neighbour owns a registered connection that was never told to shut down",
+                    wit(&steps, "admin_down is set and the close channel of the session's direction is still installed"),
+                );
+            }
+        } else {
+            rep.count("conc:judged:session-may-live");
+        }
+        if must_end {
+            if told {
+                // told to shut down: the task must end (state), watchdog = inconclusive
+                if let Some(rx) = a.done_rx.as_mut() {
+                    match tokio::time::timeout(WATCHDOG, rx).await {
+                        Ok(r) => {
+                            rep.count("conc:closed-session-ended");
+                            if let Ok(Some((loc, msg))) = r {
+                                rep.violation(&format!("C16/panic/{}:{}", loc, panic_class(&msg)), &format!("PeerSession::run panicked: {}", msg), wit(&steps, ""));
+                            }
+                            a.done_rx = None;
+                        }
+                        Err(_) => rep.inconclusive("watchdog: a session told to shut down did not end (concurrent part)"),
+                    }
+                }
+            }
+            continue;
+        }
+        // ---- (c) the parameters of a configuration that existed during the overlap
+        let mut obs = a.obs.take().unwrap_or_default();
+        obs.expected_as = expected_as;
+        obs.send_max = send_max.clone();
+        let open = match a.client.as_mut() {
+            Some(c) => conc_read_open(c).await,
+            None => Err("closed"),
+        };
+        match open {
+            Ok(o) => fold_open(&mut obs, &o),
+            Err("timeout") => {
+                rep.inconclusive("watchdog: a session accepted during a configuration change did not emit its OPEN");
+                continue;
+            }
+            Err(_) => {
+                rep.count("unjudged:conc:no-open");
+                continue;
+            }
+        }
+        let cands: Vec<Expect> = match kind {
+            ConcKind::Disable | ConcKind::Enable | ConcKind::Delete | ConcKind::Add => {
+                let mut v = vec![expectation(&None, Some(&n1), None, &addr)];
+                if entry_dynamic {
+                    v = vec![expectation(&None, None, Some(&g0), &addr)];
+                }
+                v
+            }
+            ConcKind::Replace => vec![expectation(&None, Some(&n1), None, &addr), expectation(&None, Some(&n2), None, &addr)],
+            ConcKind::DelPrefix | ConcKind::AddPrefix => vec![expectation(&None, None, Some(&g0), &addr)],
+            ConcKind::MovePrefix => vec![expectation(&None, None, Some(&g0), &addr), expectation(&None, None, Some(&g1), &addr)],
+        };
+        rep.eval();
+        rep.count("conc:judged:setup");
+        let best = cands.iter().min_by_key(|e| diff(e, &obs).len()).unwrap();
+        let d = diff(best, &obs);
+        if cands.len() > 1 {
+            rep.count("conc:setup:two-configurations-possible");
+        }
+        if let Some((field, detail)) = d.first() {
+            rep.violation(
+                &format!("C16/concurrent/setup-of-no-configuration/{}", field.split('/').next().unwrap_or("")),
+                "a session accepted while the configuration changed carries parameters of none of the configurations that existed",
+                wit(&steps, &format!("{}; all: {:?}; observed {:x?}", detail, d, obs)),
+            );
+        }
+    }
+    // ---- wind down: close the clients, every task ends, dynamic entries go away
+    for a in accepted.iter_mut() {
+        a.client = None;
+    }
+    for a in accepted.iter_mut() {
+        if let Some(rx) = a.done_rx.as_mut() {
+            if tokio::time::timeout(WATCHDOG, rx).await.is_err() {
+                rep.inconclusive("watchdog: a session did not end after its client closed (concurrent part)");
+                return;
+            }
+        }
+    }
+    let g = global.read().await;
+    rep.eval();
+    match g.peers.get(&addr) {
+        Some(p) if p.config.delete_on_disconnected => {
+            rep.violation("C16/dynamic-cleanup/entry-remains/concurrent", "a dynamic neighbour's entry is still there after all its connections ended", wit(&steps, ""));
+        }
+        Some(_) => {
+            if matches!(kind, ConcKind::Delete) {
+                rep.violation("C16/concurrent/deleted-neighbour-still-configured", "DeletePeer returned successfully but the neighbour is still in Global.peers", wit(&steps, ""));
+            }
+        }
+        None => {
+            if matches!(kind, ConcKind::Disable | ConcKind::Enable) || (matches!(kind, ConcKind::Add | ConcKind::Replace) && cok.last() == Some(&true)) {
+                rep.violation("C16/dynamic-cleanup/configured-neighbour-removed/concurrent", "a configured neighbour disappeared from Global.peers", wit(&steps, ""));
+            }
+        }
+    }
+}
+
+fn concurrent_part(rep: &mut Report, params: &Params) {
+    let n = params.n(1_400, 10_000);
+    let only = params.get("only").and_then(|s| s.parse::<u64>().ok());
+    let trace = params.flag("trace");
+    for i in 0..n {
+        if !rep.in_budget() {
+            break;
+        }
+        if let Some(o) = only {
+            if o != i {
+                continue;
+            }
+        }
+        let mut r = Rng::new((params.seed ^ 0xC16C).wrapping_mul(1_000_003).wrapping_add(i));
+        // real threads: the accept tasks and the configuration call run in parallel
+        let rt = tokio::runtime::Builder::new_multi_thread().worker_threads(3).enable_all().build().expect("runtime");
+        let res = std::panic::catch_unwind(std::panic::AssertUnwindSafe(|| {
+            rt.block_on(conc_round(&mut r, rep, i, trace));
+        }));
+        rt.shutdown_background();
+        if res.is_err() {
+            let (loc, msg) = take_panic();
+            rep.inconclusive(&format!("harness panic in the concurrent part at {}: {}", loc, msg));
+        }
+    }
+}
+
 #[test]
 fn run() {
     let params = Params::from_args_env();
@@ -3214,7 +3805,7 @@ fn run() {
     install_panic_hook();
     let mut rng = Rng::new(params.seed ^ 0xC16);
     let part = params.get("part").unwrap_or("all").to_string();
-    if part == "all" || part == "grmirror" {
+    if part == "all" || part == "seq" || part == "grmirror" {
         let rt = tokio::runtime::Builder::new_current_thread()
             .enable_all()
             .build()
@@ -3225,7 +3816,7 @@ fn run() {
         let _enter = rt.enter();
         gr_mirror_part(&mut rep, &mut r2, n);
     }
-    if part == "all" || part == "accept" {
+    if part == "all" || part == "seq" || part == "accept" {
         let n = params.n(1_500, 20_000);
         let only = params.get("only").and_then(|s| s.parse::<u64>().ok());
         let trace = params.flag("trace");
@@ -3275,6 +3866,9 @@ fn run() {
                 }
             }
         }
+    }
+    if part == "all" || part == "concurrent" {
+        concurrent_part(&mut rep, &params);
     }
     let _ = rep.finish();
 }
